@@ -32,3 +32,10 @@ package ethereum
 //@   ensures [members-are-the-selected-operators-and-submitter-is-passed-through] err == nil ==> result0.Members == groupSelectionResult.OperatorsIDs && result0.SubmitterMemberIndex == submitterMemberIndex
 //@   assert call:computeOperatorsIDsHash : [members-hash-is-over-the-operators-of-the-sorted-operating-members] len(arg0) == len(operatingMembersIndexes) && (forall k int :: 0 <= k && k < len(arg0) ==> arg0[k] == groupSelectionResult.OperatorsIDs[int(operatingMembersIndexes[k]) - 1]) && (forall a, b int :: 0 <= a && a < b && b < len(operatingMembersIndexes) ==> operatingMembersIndexes[a] <= operatingMembersIndexes[b])
 //@   loop 1 invariant len(operatingOperatorsIDs) == len(operatingMembersIndexes) && (forall k int :: 0 <= k && k < rangeidx1 ==> operatingOperatorsIDs[k] == groupSelectionResult.OperatorsIDs[int(operatingMembersIndexes[k]) - 1])
+
+// The wallet ID is the hash of exactly the 64-byte chain-format key
+// (bytes32 X || bytes32 Y), as Wallets.sol defines it.
+//@ func calculateWalletID
+//@   property C40
+//@   opt noframe 1
+//@   assert call:Keccak256Hash : [wallet-id-hashes-exactly-the-64-byte-chain-format-key] len(arg0) == 1 && len(arg0[0]) == 64
